@@ -1,7 +1,26 @@
 use core::num::ParseIntError;
 
+/// Checks that `hex` consists of ASCII hexadecimal digits only.
+///
+/// This has to be done before the string is split into components, because
+/// slicing at a fixed byte index panics in the middle of a multi-byte
+/// character, and because `from_str_radix` accepts a leading `+`, so
+/// `"+f+f+f"` would be read as `"0f0f0f"`.
+#[inline]
+fn check_hex_digits(hex: &str) -> Result<(), ParseIntError> {
+    if hex.bytes().all(|byte| byte.is_ascii_hexdigit()) {
+        Ok(())
+    } else {
+        // `ParseIntError` has no public constructor, so the "invalid digit"
+        // error is produced by parsing something that is never a digit.
+        u8::from_str_radix("?", 16).map(|_| ())
+    }
+}
+
 #[inline]
 pub(crate) fn rgb_from_hex_4bit(hex: &str) -> Result<(u8, u8, u8), ParseIntError> {
+    check_hex_digits(hex)?;
+
     let red = u8::from_str_radix(&hex[..1], 16)?;
     let green = u8::from_str_radix(&hex[1..2], 16)?;
     let blue = u8::from_str_radix(&hex[2..3], 16)?;
@@ -19,6 +38,8 @@ pub(crate) fn rgba_from_hex_4bit(hex: &str) -> Result<(u8, u8, u8, u8), ParseInt
 
 #[inline]
 pub(crate) fn rgb_from_hex_8bit(hex: &str) -> Result<(u8, u8, u8), ParseIntError> {
+    check_hex_digits(hex)?;
+
     let red = u8::from_str_radix(&hex[..2], 16)?;
     let green = u8::from_str_radix(&hex[2..4], 16)?;
     let blue = u8::from_str_radix(&hex[4..6], 16)?;
@@ -36,6 +57,8 @@ pub(crate) fn rgba_from_hex_8bit(hex: &str) -> Result<(u8, u8, u8, u8), ParseInt
 
 #[inline]
 pub(crate) fn rgb_from_hex_16bit(hex: &str) -> Result<(u16, u16, u16), ParseIntError> {
+    check_hex_digits(hex)?;
+
     let red = u16::from_str_radix(&hex[..4], 16)?;
     let green = u16::from_str_radix(&hex[4..8], 16)?;
     let blue = u16::from_str_radix(&hex[8..12], 16)?;
@@ -53,6 +76,8 @@ pub(crate) fn rgba_from_hex_16bit(hex: &str) -> Result<(u16, u16, u16, u16), Par
 
 #[inline]
 pub(crate) fn rgb_from_hex_32bit(hex: &str) -> Result<(u32, u32, u32), ParseIntError> {
+    check_hex_digits(hex)?;
+
     let red = u32::from_str_radix(&hex[..8], 16)?;
     let green = u32::from_str_radix(&hex[8..16], 16)?;
     let blue = u32::from_str_radix(&hex[16..24], 16)?;
